@@ -40,10 +40,11 @@ type Frame struct {
 	retK   func(st *State, res Val) // continuation at return (nil = top level)
 	depth  int
 	paramSite map[*ssa.Parameter]string // inlined helper: role site of the function value passed for a parameter
+	paramVariant map[*ssa.Parameter]string // inlined helper: static type behind an interface argument (selects type-specific extern contracts)
 }
 
 func (f *Frame) clone() *Frame {
-	g := &Frame{fn: f.fn, free: f.free, retK: f.retK, depth: f.depth, paramSite: f.paramSite}
+	g := &Frame{fn: f.fn, free: f.free, retK: f.retK, depth: f.depth, paramSite: f.paramSite, paramVariant: f.paramVariant}
 	g.regs = make(map[ssa.Value]Val, len(f.regs)+8)
 	for k, v := range f.regs {
 		g.regs[k] = v
